@@ -956,8 +956,7 @@ def e2e_witness(model):
         _req(abs(var - pv) < 1e-6 * max(1, pv) and abs(std - math.sqrt(pv)) < 1e-6 * max(1, pv), f"var/std {var} {std} vs {pv} {w}")
         _req(abs(var1 - sv) < 1e-6 * max(1, sv), f"var(ddof=1) {var1} vs {sv} {w}")
         _req(acc1 == list(itertools.accumulate(ref, initial=1)), f"accumulate initial {w}")
-        if parts[0]:     # accumulate without initial and an empty first partition: see the reported finding
-            _req(c(b.accumulate(add))[0] == list(itertools.accumulate(ref)), f"accumulate {w}")
+        _req(c(b.accumulate(add))[0] == list(itertools.accumulate(ref)), f"accumulate {w}")
         _req(zp == [(x, -x) for x in ref], f"zip {w}")
         _req(cc == ref + [-x for x in ref], f"concat {w}")
         _req(sorted(prod) == sorted(itertools.product(ref, [1, 2])), f"product {w}")
